@@ -318,6 +318,10 @@ def run(case, sm, recorder_cls):
             started = [e for e in st.outgoing_events if str(e.get("type", "")).startswith("Start") and "action_uid" in e]
             uids = [e["action_uid"] for e in started]
             obs["n_started"] = len(uids)
+            try:  # the actions as the runtime knows them (uid, name, start arguments): read from the real state
+                obs["actions"] = [[u, st.actions[u].name, [[k, vj.enc(v)] for k, v in st.actions[u].start_event_arguments.items()]] for u in uids]
+            except Exception:  # noqa
+                obs["actions"] = None
             obs["hit_at_start"] = sorted(e.get("tag") for e in st.outgoing_events if e.get("type") == "Hit")
             for step in case["steps"]:
                 if step["op"] == "noise":
@@ -454,11 +458,33 @@ def _vals_at(case, upto):
 
 def model_request(case, obs):
     """the whole history for `Match.runHist` (only the plain-event modes: the statement is `match Ev(x=<tmpl>, t=<tag>)`)"""
-    if "skip" in obs or case["mode"] in ("action", "sibling"):
+    if "skip" in obs or case["mode"] == "sibling":
         return None
     steps = []
     if len(obs.get("seen", [])) != len(case["steps"]):
         return None  # the run broke off (exception): nothing to compare step by step
+    if case["mode"] == "action":
+        acts = obs.get("actions")
+        if not acts or len(acts) != case["n"]:
+            return None
+        for s, seen in zip(case["steps"], obs["seen"]):
+            if s["op"] == "set":
+                steps.append({"op": "set", "var": s["var"], "val": seen} if s["var"] < case["nvars"] else {"op": "noise"})
+            elif s["op"] == "noise":
+                steps.append({"op": "noise"})
+            else:
+                args = [["final_script", seen]]
+                d = {"op": "aev", "name": "UtteranceBotActionFinished"}
+                if s["target"] == "unknown":
+                    d["action_uid"] = "no-such-action"
+                elif s["target"] != "none":
+                    d["action_uid"] = acts[s["target"]][0]
+                if "action_uid" in d:
+                    args.append(["action_uid", {"s": d["action_uid"]}])  # from_umim_event keeps it among the arguments
+                d["args"] = args
+                steps.append(d)
+        return {"m": "C04.hist", "form": "action", "tmpl": [["final_script", canon_tmpl(case["tmpl"])]], "init": obs["init_seen"], "tags": [0], "loop": False,
+                "actions": acts, "k": case["k"], "steps": steps, "rx": obs["rx"]}
     for s, seen in zip(case["steps"], obs["seen"]):
         if s["op"] == "set":
             if case["mode"] == "static" or s["var"] >= case["nvars"]:
@@ -481,6 +507,9 @@ def compare_hist(case, obs, m):
     mh = m.get("hits")
     if mh is None:
         return f"model could not replay the history: {m}"
+    want_kind = "action" if case["mode"] == "action" else "plain"
+    if m.get("ref_kind") not in (want_kind, None):
+        return f"model builds a reference event of kind {m.get('ref_kind')} for the statement, expected {want_kind}"
     for i in range(min(n, len(obs["hits"]), len(mh))):
         if mh[i] == "err":
             return None
